@@ -892,11 +892,12 @@ class Prop:
                   "tied by the differential run; zlib's Adler-32 and protobuf's verdicts are environment")
     level_note = ("Trusted: Lean kernel (axioms propext, Classical.choice, Quot.sound only), vlib/extract.py + vlib/gen/codec.py, "
                   "vlib/gen/http.py, the hand-written parts of Model/Codec.lean, Model/Http.lean, Model/Stream.lean as far as the "
-                  "differential run exercises them, protobuf (its parse verdicts are recorded and fed to the model), zlib. "
+                  "differential run exercises them, protobuf (its parse verdicts - ParseFromArray of a fresh message on the whole payload, taken by the harness next to the codec's own call, not from it - are recorded and fed to the model), zlib. "
                   "Real pointer arithmetic is watched only by ASan/UBSan (thorough tier).")
     rule = ("byte streams: concatenations of 1-5 frames produced by the real encoder (mostly-valid generator), truncations, "
             "single-bit flips, multi-byte overwrites, tag/payload corruption with recomputed checksum, adversarial length "
-            "fields (-1, -2^31, 0, min-1, min, min+1, 64Mi, 64Mi+1, 2^31-1, len+-1, random), wrong checksums, garbage (separate "
+            "fields (-1, -2^31, 0, min-1, min, min+1, 64Mi, 64Mi+1, 2^31-1, len+-1, random), wrong checksums, bytes after a complete "
+            "message (zero tag / END_GROUP tag / any byte, then more bytes) with a right checksum, garbage (separate "
             "malformed generator); every segmentation (all 2^(n-1)) of streams up to 11 (quick) / 14 (thorough) bytes, "
             "byte-by-byte, every single cut at a mark (inside each length field, around tag and checksum, frame ends; "
             "HTTP: between CR and LF, around separators), all marks at once and random cut sets for longer ones; "
@@ -920,7 +921,7 @@ class Prop:
         "processRequestLine, std::map; tied by the differential run (harness/codec_drv.cc, harness/http_drv.cc vs the Lean drivers)",
         "example codec: harness/codec_drv.cc walks the buffer by length fields and asks protobuf's registry / parser directly for the "
         "verdicts the model is parameterised by (ProtobufCodec has no hook)",
-        "protobuf's ParseFromArray / serialisation (verdicts recorded from the real calls), zlib's adler32 (cross-checked against "
+        "protobuf's ParseFromArray / serialisation (verdicts recorded from real calls the harness makes itself on each payload; the codec's own answer is compared with them: oracle clause codec-parse-verdict), zlib's adler32 (cross-checked against "
         "the Lean Adler-32 on every generated frame), std::string, std::map, std::find, std::find_if, std::search, isspace",
     ]
     assumptions = [
